@@ -216,11 +216,16 @@ class GenMFGrowth(GrowthFactor):
 
     def _general_case(self, w, x):
         x = np.atleast_1d(x)
-        xn_vec = np.linspace(0, x.max(), 1000)
 
-        func = _spline(xn_vec, (xn_vec / (xn_vec ** 3 + 2)) ** 1.5)
+        # Tabulate in u = t**2.5, in which the integrand (t / (t**3 + 2))**1.5 dt becomes the
+        # smooth (u**1.2 + 2)**-1.5 du / 2.5 that tends to a constant at u -> 0. With a grid
+        # linear in t, arguments much smaller than x.max() / 1000 fell inside the first cell,
+        # so the value for one element depended on the other elements of `x`.
+        u_vec = np.linspace(0, x.max() ** 2.5, 1000)
 
-        g = np.array([func.integral(0, y) for y in x])
+        func = _spline(u_vec, (u_vec ** 1.2 + 2) ** -1.5)
+
+        g = np.array([func.integral(0, y ** 2.5) for y in x]) / 2.5
         return ((x ** 3.0 + 2.0) ** 0.5) * (g / x ** 1.5)
 
     def growth_factor(self, z):
